@@ -39,12 +39,12 @@
 (* (sharing present, set-size coincidence, ...).  A mismatch whose pair    *)
 (* lacks the feature of every known finding is reported as a VIOLATION.    *)
 (*                                                                         *)
-(* FAMILIES (constant FAM):                                                *)
-(*  "graph"  the build phase adds one node per step, every node choice     *)
-(*           over KINDS x slots(LEAFS, earlier nodes); BFS = all heaps of  *)
-(*           exactly N nodes, -simulate = random larger heaps              *)
-(*  "leaf"   all ordered pairs of LEAFS (numeric tower subtleties, values  *)
-(*           built two ways) x a wrapper kind from KINDS (or none)         *)
+(* FAMILIES (table Fams, selected by the constant FAMSEL):                 *)
+(*  graph families: the build phase adds one node per step, every node     *)
+(*           choice over kinds x slots(leafs, earlier nodes); BFS = all    *)
+(*           heaps of exactly n nodes, -simulate = random larger heaps     *)
+(*  "leaf"   all ordered pairs of leaves (numeric tower subtleties, values *)
+(*           built two ways) x a wrapper kind (or none)                    *)
 (*                                                                         *)
 (* NAMED MODELLING CHOICES (Steel is not R7RS here, on purpose):           *)
 (*  M1  boxes and mutable vectors are compared structurally by equal? and  *)
@@ -61,17 +61,50 @@
 (*  NaN: R7RS leaves (eqv? +nan.0 +nan.0) unspecified; the property says   *)
 (*  equal? is an equivalence, so reflexivity is demanded (Den(nan) = nan). *)
 (***************************************************************************)
-EXTENDS Integers, Sequences, TLC, Json, FiniteSets
+EXTENDS Integers, Sequences, TLC, Json, FiniteSets, SequencesExt
 
-CONSTANTS FAM,      \* "graph" | "leaf"
-          N,        \* graph: number of heap nodes of every emitted case
-          LEAFS,    \* leaf ids usable in child slots
-          KINDS,    \* aggregate kinds usable (leaf family: wrapper kinds; "none" = bare)
-          MUTANTS   \* TRUE: add one-leaf mutants of the unshared copies as handles
+CONSTANTS FAMSEL,   \* the families (names in Fams below) explored by this run
+          NBUMP,    \* added to the node count of every graph family (thorough tier)
+          SEED,     \* sparse families: selects the pseudo-random sub-tree of the build tree
+          BRANCH    \* sparse families: expected number of node choices kept per step
 
-VARIABLES g,        \* the heap built so far
+VARIABLES fam,      \* the family of this behaviour
+          g,        \* the heap built so far
           phase     \* "build" | "done"
-vars == <<g, phase>>
+vars == <<fam, g, phase>>
+
+(* Families.  n = heap nodes per case, leafs = leaf ids usable in child slots, kinds = node   *)
+(* kinds usable ("leaf" family: the wrapper put around both leaves; "none" = bare), mut = add *)
+(* one-leaf mutants of the unshared copies as further values.                                 *)
+LeafOrder == <<"i1", "i1b", "i2", "i0", "f1", "f0", "fn0", "nan", "big", "big2", "rat", "rat2", "brat", "brat2",
+               "cx", "cx2", "sa", "sa2", "sb", "se", "ya", "ya2", "yb", "ca", "ca2", "cb", "t", "f", "nil", "nil2",
+               "bv", "bv2", "bw">>
+AllLeafIds == {LeafOrder[i] : i \in 1..Len(LeafOrder)}
+Fams == [
+  list   |-> [n |-> 3, leafs |-> {"i1", "nil"}, kinds |-> {"cons", "list1"}, mut |-> TRUE],
+  vec    |-> [n |-> 3, leafs |-> {"i1"},        kinds |-> {"ivec1", "ivec2", "mvec2", "list1"}, mut |-> TRUE],
+  hash   |-> [n |-> 3, leafs |-> {"i1", "i2"},  kinds |-> {"hash1", "hins"}, mut |-> TRUE],
+  hset   |-> [n |-> 3, leafs |-> {"i1", "i2"},  kinds |-> {"hset1", "hset2"}, mut |-> TRUE],
+  struct |-> [n |-> 3, leafs |-> {"i1"},        kinds |-> {"sP", "sQ", "list1"}, mut |-> TRUE],
+  box    |-> [n |-> 3, leafs |-> {"i1"},        kinds |-> {"box", "mvec1", "list2"}, mut |-> TRUE],
+  strs   |-> [n |-> 3, leafs |-> {"sa", "big2"}, kinds |-> {"lf", "list2"}, mut |-> TRUE],
+  mixed  |-> [n |-> 2, leafs |-> {"i1", "nil"},
+              kinds |-> {"cons", "list1", "list2", "ivec1", "ivec2", "mvec1", "mvec2", "box", "hash1", "hins",
+                         "hset1", "hset2", "sP", "sQ"}, mut |-> TRUE],
+  \* sparse: only a SEED-selected pseudo-random subset of the node choices is followed at each
+  \* step (about BRANCH of them), so that larger heaps over all kinds are sampled reproducibly
+  sim    |-> [n |-> 5, leafs |-> {"i1", "i2", "nil", "sa"},
+              kinds |-> {"cons", "list1", "list2", "ivec1", "ivec2", "mvec1", "mvec2", "box", "hash1", "hins",
+                         "hset1", "hset2", "sP", "sQ", "lf"}, mut |-> TRUE],
+  leaf   |-> [n |-> 0, leafs |-> AllLeafIds,
+              kinds |-> {"none", "list1", "cons", "list2", "ivec1", "mvec2", "box", "hash1", "hins", "hset1", "sP"},
+              mut |-> FALSE] ]
+FAM     == fam
+N       == Fams[fam].n + (IF fam = "leaf" THEN 0 ELSE NBUMP)
+LEAFS   == Fams[fam].leafs
+KINDS   == Fams[fam].kinds
+MUTANTS == Fams[fam].mut
+SPARSE  == fam = "sim"
 
 -----------------------------------------------------------------------------
 (* Leaves.  id, Scheme source, denotation id, class.  Two ids with the same  *)
@@ -161,6 +194,21 @@ NodeChoices(h) ==
             [] OTHER -> {[k |-> k, c |-> <<s1, s2>>] : s1 \in Slots(h), s2 \in Slots(h)}
           : k \in KINDS \cap AllKinds }
 
+\* Seeded pseudo-random thinning of the build tree (a pure function of heap, node and SEED, so
+\* the exploration is reproducible and independent of the number of TLC workers).
+KindOrder == <<"cons", "list1", "list2", "ivec1", "ivec2", "mvec1", "mvec2", "box", "hash1", "hins", "hset1",
+               "hset2", "sP", "sQ", "lf">>
+IdxIn(seq, x) == CHOOSE i \in 1..Len(seq) : seq[i] = x
+SlotCode(sl) == IF sl.r = 0 THEN IdxIn(LeafOrder, sl.l) ELSE 40 + sl.r
+Mx(a, b) == (a * 251 + b) % 9973
+NodeCode(nd) == LET a == Mx(IdxIn(KindOrder, nd.k), SlotCode(nd.c[1]))
+                    b == IF Len(nd.c) >= 2 THEN Mx(a, SlotCode(nd.c[2])) ELSE Mx(a, 7)
+                IN IF Len(nd.c) >= 3 THEN Mx(b, SlotCode(nd.c[3])) ELSE Mx(b, 11)
+RECURSIVE HeapCode(_, _)
+HeapCode(h, i) == IF i = 0 THEN SEED % 9973 ELSE Mx(HeapCode(h, i - 1), NodeCode(h[i]))
+Kept(h, choices) == LET hc == HeapCode(h, Len(h))  m == Cardinality(choices) IN
+                    {nd \in choices : (Mx(Mx(hc, NodeCode(nd)), 4001) % m) < BRANCH}
+
 -----------------------------------------------------------------------------
 (* Unfolding: the term (tree) of a node.  Sharing disappears here. *)
 LeafTerm(l) == [k |-> "leaf", id |-> l, c |-> << >>]
@@ -194,8 +242,12 @@ Mutate(t, p) ==
 (* abstractions under which two known Steel defects become equalities:       *)
 (*   "setsize"  a hash set is only its cardinality                           *)
 (*   "zero"     0.0 and -0.0 are identified                                  *)
+(*   "mut"      (refinement, not abstraction) mutable and immutable vectors  *)
+(*              are different kinds of value - what Steel's Hash sees        *)
 NilD == <<"leaf", "nil">>
 LeafD(i, mode) == IF mode = "zero" /\ LeafDen(i) = "fn0" THEN <<"leaf", "f0">> ELSE <<"leaf", LeafDen(i)>>
+
+VecTag(k, mode) == IF mode = "mut" THEN (IF k \in {"mvec1", "mvec2"} THEN "mvec" ELSE "ivec") ELSE "vec"
 
 RECURSIVE DenM(_, _)
 DenM(t, m) ==
@@ -203,8 +255,8 @@ DenM(t, m) ==
     [] t.k = "cons"  -> <<"cons", DenM(t.c[1], m), DenM(t.c[2], m)>>
     [] t.k = "list1" -> <<"cons", DenM(t.c[1], m), NilD>>
     [] t.k = "list2" -> <<"cons", DenM(t.c[1], m), <<"cons", DenM(t.c[2], m), NilD>>>>
-    [] t.k \in {"ivec1", "mvec1"} -> <<"vec", <<DenM(t.c[1], m)>>>>
-    [] t.k \in {"ivec2", "mvec2"} -> <<"vec", <<DenM(t.c[1], m), DenM(t.c[2], m)>>>>
+    [] t.k \in {"ivec1", "mvec1"} -> <<VecTag(t.k, m), <<DenM(t.c[1], m)>>>>
+    [] t.k \in {"ivec2", "mvec2"} -> <<VecTag(t.k, m), <<DenM(t.c[1], m), DenM(t.c[2], m)>>>>
     [] t.k = "box"   -> <<"box", DenM(t.c[1], m)>>
     [] t.k = "hash1" -> <<"map", {<<DenM(t.c[1], m), DenM(t.c[2], m)>>}>>
     [] t.k = "hins"  -> LET old == DenM(t.c[1], m)
@@ -235,6 +287,14 @@ Big(t) == t.k # "leaf" /\ (Entries(t) >= 2 \/ \E p \in 1..Len(t.c) : Big(t.c[p])
 RECURSIVE BigKey(_)
 KeyPos(t) == CASE t.k = "hash1" -> {1} [] t.k = "hins" -> {2} [] t.k \in {"hset1", "hset2"} -> 1..Len(t.c) [] OTHER -> {}
 BigKey(t) == t.k # "leaf" /\ ((\E p \in KeyPos(t) : Big(t.c[p])) \/ \E p \in 1..Len(t.c) : BigKey(t.c[p]))
+
+\* contains a hash map / hash set two of whose keys / members are equal as values but differ
+\* in vector mutability (Steel keeps both)
+RECURSIVE MutSplit(_)
+MutSplit(t) == t.k # "leaf" /\
+   (   (t.k \in {"hash1", "hins", "hset1", "hset2"}
+           /\ Cardinality(DenM(t, "mut")[2]) # Cardinality(DenM(t, "std")[2]))
+    \/ \E p \in 1..Len(t.c) : MutSplit(t.c[p]))
 
 \* node identities met when node i is traversed completely (with repetition)
 RECURSIVE OccSeq(_, _)
@@ -278,11 +338,10 @@ Probes == <<
   [name |-> "equal",    grp |-> "eq",   tpl |-> "(equal? $x $y)",                              eq |-> "#true",  ne |-> "#false"],
   [name |-> "equal-r",  grp |-> "eq",   tpl |-> "(equal? $y $x)",                              eq |-> "#true",  ne |-> "#false"],
   [name |-> "tryget",   grp |-> "hash", tpl |-> "(hash-try-get (hash $x 1) $y)",               eq |-> "1",      ne |-> "#false"],
-  [name |-> "href",     grp |-> "hash", tpl |-> "(with-handler (lambda (e) 'miss) (hash-ref (hash $x 1) $y))", eq |-> "1", ne |-> "miss"],
   [name |-> "contains", grp |-> "hash", tpl |-> "(hash-contains? (hash-insert $b $x 1) $y)",   eq |-> "#true",  ne |-> "#false"],
   [name |-> "set",      grp |-> "hash", tpl |-> "(hashset-contains? (hashset $x) $y)",         eq |-> "#true",  ne |-> "#false"],
   [name |-> "dupkey",   grp |-> "hash", tpl |-> "(hash-length (hash $x 1 $y 2))",              eq |-> "1",      ne |-> "2"],
-  [name |-> "dupkey-v", grp |-> "hash", tpl |-> "(hash-ref (hash $x 1 $y 2) $x)",              eq |-> "2",      ne |-> "1"],
+  [name |-> "dupkey-v", grp |-> "hash", tpl |-> "(with-handler (lambda (e) 'miss) (hash-ref (hash $x 1 $y 2) $x))", eq |-> "2", ne |-> "1"],
   [name |-> "dupset",   grp |-> "hash", tpl |-> "(hashset-length (hashset-insert (hashset $x) $y))", eq |-> "1", ne |-> "2"],
   [name |-> "eqv",      grp |-> "eqv",  tpl |-> "(eqv? $x $y)",                                eq |-> "#true",  ne |-> "#false"],
   [name |-> "eq",       grp |-> "eqp",  tpl |-> "(eq? $x $y)",                                 eq |-> "#true",  ne |-> "#false"] >>
@@ -314,18 +373,24 @@ EqExp(h, i, j) ==
 (* Handles and pairs of one case *)
 \* feature letters: S / V a node is met twice during the traversal (see ShareFeat), H equal when sets are sizes, Z equal when
 \* -0.0 = 0.0, A a NaN leaf, X an exotic leaf nested in an aggregate, B a map/set with >= 2
-\* entries inside, K such a map/set inside a key, I identity of a box / heap number (eqv/eq),
+\* entries inside, K such a map/set inside a key, M equal but for vector mutability,
+\* N a map/set inside has two keys that differ only in vector mutability,
+\* I the object is of a kind without identity arm (eqv/eq on the same variable),
 \* Q eqv? on heap-allocated exact numbers
 FeatT(x, y) ==
      (IF Den(x) # Den(y) /\ DenM(x, "setsize") = DenM(y, "setsize") THEN "H" ELSE "")
   \o (IF Den(x) # Den(y) /\ DenM(x, "zero") = DenM(y, "zero") THEN "Z" ELSE "")
+  \o (IF Den(x) = Den(y) /\ DenM(x, "mut") # DenM(y, "mut") THEN "M" ELSE "")
+  \o (IF MutSplit(x) \/ MutSplit(y) THEN "N" ELSE "")
   \o (IF HasLeafCls(x, {"nan"}) \/ HasLeafCls(y, {"nan"}) THEN "A" ELSE "")
   \o (IF NestedLeafCls(x, ExoticCls) \/ NestedLeafCls(y, ExoticCls) THEN "X" ELSE "")
   \o (IF Big(x) \/ Big(y) THEN "B" ELSE "")
   \o (IF BigKey(x) \/ BigKey(y) THEN "K" ELSE "")
 HeapNumCls == {"bigint", "ratio", "bigratio", "complex"}
+\* kinds of object for which Steel's eq?/eqv? has no identity arm (SteelVal::ptr_eq)
+NoIdentCls == {"ratio", "bigratio", "complex"}
 FeatId(x, y) ==
-     (IF x.k = "box" \/ (x.k = "leaf" /\ LeafCls(x.id) \in HeapNumCls) THEN "I" ELSE "")
+     (IF x.k \in {"box", "sP", "sQ"} \/ (x.k = "leaf" /\ LeafCls(x.id) \in NoIdentCls) THEN "I" ELSE "")
   \o (IF x.k = "leaf" /\ y.k = "leaf" /\ LeafCls(x.id) \in HeapNumCls /\ LeafCls(y.id) \in HeapNumCls THEN "Q" ELSE "")
 
 B2S(b) == IF b THEN 1 ELSE 0
@@ -335,9 +400,9 @@ B2S(b) == IF b THEN 1 ELSE 0
 PairStr(x, y, same, hashed, eqv, eqp, ft) ==
   ToString(x) \o "," \o ToString(y) \o "," \o ToString(same) \o "," \o ToString(hashed) \o ","
   \o eqv \o "," \o eqp \o "," \o ft
-NodePair(h, i, j) ==
+NodePair(h, i, j, hashed) ==
   LET x == Term(h, i)  y == Term(h, j) IN
-  PairStr(i, j, B2S(StructEq(x, y)), 1, EqvExp(h, i, j), EqExp(h, i, j),
+  PairStr(i, j, B2S(StructEq(x, y)), hashed, EqvExp(h, i, j), EqExp(h, i, j),
           (IF i # j THEN ShareFeat(h, OccSeq(h, i) \o OccSeq(h, j)) ELSE "") \o FeatT(x, y) \o FeatId(x, y))
 \* x = node i of the heap, y = a separately built tree ty (handle index yi)
 TreePair(h, i, ty, yi, hashed) ==
@@ -345,29 +410,32 @@ TreePair(h, i, ty, yi, hashed) ==
   PairStr(i, yi, B2S(StructEq(x, ty)), hashed, "-", "-",
           ShareFeat(h, OccSeq(h, i)) \o FeatT(x, ty))
 
-\* mutants of node i: <<term, ...>>
-MutantsOf(h, i) == LET t == Term(h, i) IN
-                   IF MUTANTS /\ t.k # "leaf" THEN [p \in 1..LeafCount(t) |-> Mutate(t, p)] ELSE << >>
-RECURSIVE AllMutants(_, _)
-AllMutants(h, i) == IF i > Len(h) THEN << >>
-                    ELSE [p \in 1..Len(MutantsOf(h, i)) |-> [of |-> i, t |-> MutantsOf(h, i)[p]]] \o AllMutants(h, i + 1)
-
 RECURSIVE Flatten(_)
 Flatten(ss) == IF Len(ss) = 0 THEN << >> ELSE Head(ss) \o Flatten(Tail(ss))
 
-CaseOf(h) ==
+\* mutants of node i: <<term, ...>>
+MutantsOf(h, i) == LET t == Term(h, i) IN
+                   IF MUTANTS /\ t.k # "leaf" THEN [p \in 1..LeafCount(t) |-> Mutate(t, p)] ELSE << >>
+AllMutants(h, roots) ==
+  LET rs == SetToSortSeq(roots, <) IN
+  Flatten([a \in 1..Len(rs) |-> [p \in 1..Len(MutantsOf(h, rs[a])) |-> [of |-> rs[a], t |-> MutantsOf(h, rs[a])[p]]]])
+
+\* roots = the heap nodes that are values under test
+\* battery levels (4th field of a pair): 2 = whole hash battery, 1 = only "tryget", 0 = none
+CaseOf(h, roots) ==
   LET n    == Len(h)
-      muts == AllMutants(h, 1)
+      rs   == SetToSortSeq(roots, <)
+      nr   == Len(rs)
+      muts == AllMutants(h, roots)
       nm   == Len(muts)
-      \* handles: 1..n nodes, n+1..2n copies, 2n+1.. mutants
+      \* handles: 1..n nodes, n+1..2n unshared copies, 2n+1.. mutants of the copies
       handles == [i \in 1..n |-> "n" \o ToString(i)]
                  \o [i \in 1..n |-> RTerm(Term(h, i))]
                  \o [q \in 1..nm |-> RTerm(muts[q].t)]
-      nn == Flatten([i \in 1..n |-> [j \in 1..n |-> NodePair(h, i, j)]])
-      nc == Flatten([i \in 1..n |-> [j \in 1..n |-> TreePair(h, i, Term(h, j), n + j, 1)]])
-      \* a node against every mutant; hashing only against its own mutants
-      nmu == Flatten([i \in 1..n |-> [q \in 1..nm |->
-                        TreePair(h, i, muts[q].t, 2 * n + q, B2S(muts[q].of = i))]])
+      nn == Flatten([a \in 1..nr |-> [b \in 1..nr |-> NodePair(h, rs[a], rs[b], IF a = b THEN 0 ELSE 1)]])
+      nc == Flatten([a \in 1..nr |-> [b \in 1..nr |-> TreePair(h, rs[a], Term(h, rs[b]), n + rs[b], 2)]])
+      \* a node against its own mutants
+      nmu == [q \in 1..nm |-> TreePair(h, muts[q].of, muts[q].t, 2 * n + q, 1)]
   IN [fam |-> FAM, pre |-> Prelude(h), lets |-> RLets(h, 1), handles |-> handles,
       pairs |-> nn \o nc \o nmu]
 
@@ -386,17 +454,26 @@ Wrap(k, j) == CASE k = "cons"  -> [k |-> k, c |-> <<RefSlot(j), LeafSlot("i1")>>
 LeafHeap(x, y, w) ==
   LET base == << [k |-> "lf", c |-> <<LeafSlot(x)>>], [k |-> "lf", c |-> <<LeafSlot(y)>>] >> IN
   IF w = "none" THEN base ELSE base \o << Wrap(w, 1), Wrap(w, 2) >>
-LeafHeaps == {LeafHeap(x, y, w) : x \in LEAFS, y \in LEAFS, w \in KINDS}
+\* bare: all ordered pairs of leaves; wrapped: pairs of the same kind of thing (all numbers count
+\* as one kind, so 1 vs 1.0 and 1/2 vs 0.5-like confusions are inside every wrapper)
+Super(c) == IF c \in NumberCls THEN "number" ELSE c
+LeafHeaps ==
+  (IF "none" \in KINDS THEN {LeafHeap(x, y, "none") : x \in LEAFS, y \in LEAFS} ELSE {})
+  \cup {LeafHeap(p[1], p[2], w) :
+          p \in {q \in LEAFS \X LEAFS : Super(LeafCls(q[1])) = Super(LeafCls(q[2]))}, w \in KINDS \ {"none"}}
+Roots(h) == IF FAM = "leaf" THEN (IF Len(h) = 2 THEN {1, 2} ELSE {3, 4}) ELSE 1..Len(h)
 
 -----------------------------------------------------------------------------
 (* The state machine *)
 Init == /\ PrintT(<<"PROBES", ToJson([probes |-> Probes, base |-> BaseMap])>>)
-        /\ IF FAM = "leaf" THEN g \in LeafHeaps /\ phase = "done"
+        /\ fam \in FAMSEL
+        /\ IF fam = "leaf" THEN g \in LeafHeaps /\ phase = "done"
            ELSE g = << >> /\ phase = "build"
 
 AddNode == /\ phase = "build" /\ Len(g) < N
-           /\ \E nd \in NodeChoices(g) : g' = Append(g, nd)
+           /\ \E nd \in (IF SPARSE THEN Kept(g, NodeChoices(g)) ELSE NodeChoices(g)) : g' = Append(g, nd)
            /\ phase' = IF Len(g) + 1 = N THEN "done" ELSE "build"
+           /\ UNCHANGED fam
 Next == AddNode
 Spec == Init /\ [][Next]_vars
 
@@ -409,5 +486,5 @@ OracleOK == phase = "done" =>
               \A i \in 1..Len(g) :
                  /\ StructEq(Term(g, i), Term(g, i))
                  /\ \A j \in 1..Len(g) : StructEq(Term(g, i), Term(g, j)) = StructEq(Term(g, j), Term(g, i))
-Emit == (phase = "done") => PrintT(<<"REPLAY", ToJson(CaseOf(g))>>)
+Emit == (phase = "done") => PrintT(<<"REPLAY", ToJson(CaseOf(g, Roots(g)))>>)
 =============================================================================
